@@ -7,7 +7,7 @@ C12 — model of the router's two phases (configuration, serving):
 
 Granularity: one atomic step = what a goroutine does between two `verifYield` points (the points are
 `serve.entry`, `freeze.flags`, `warmup.drained`, `warmup.registered`, `warmup.compiled`, `freeze.done`,
-`serve.frozen`). The code between two points takes its locks and releases them again, so at this
+`serve.frozen`, and `register.checked` between the unlocked flag test of a registration and its enqueue). The code between two points takes its locks and releases them again, so at this
 granularity every step is atomic. `sync.Once` is a parameter with its documented contract: the first
 caller runs the body, every other caller blocks until the body has returned.
 
@@ -16,8 +16,10 @@ Two layers:
 * `St` / `step` — goroutines ("actors") with their program position; a schedule is a list of actor
   indices, `step s i` lets actor `i` run to its next yield point (or block, or finish).
 
-The model follows the code after the `fix:` commits for K12 (`Where*` panics when frozen) and K12b
-(`VersionRouter.addVersionRoute` panics when serving/frozen); `Core.stepAsIs` keeps the shipped behaviour.
+The model follows the code after the `fix:` commits for K12 (`Where*` panics when frozen), K12b
+(`VersionRouter.addVersionRoute` panics when serving/frozen) and K12e (a registration re-tests the flags
+under `pendingRoutesMu`, under which `Freeze` stores them); `Core.stepAsIs` / `stepActorAsIs` keep the shipped
+behaviour.
 Core Lean only.
 -/
 namespace Rivaas.Phases
@@ -180,13 +182,14 @@ inductive Status where
   | blockedF   -- blocked in `freezeOnce.Do`
   | blockedW   -- explicit `Warmup()` blocked in `warmupOnce.Do`
   | atFrozen   -- request parked at `serve.frozen`
+  | atChecked  -- registration parked at `register.checked`: the unlocked flag test has passed
   | finished
   deriving DecidableEq, Repr
 
 /-- what the scheduler sees of a goroutine: the yield point it is parked at, blocked, done -/
 inductive Vis where
   | notStarted | serveEntry | freezeFlags | warmupDrained | warmupRegistered | warmupCompiled
-  | freezeDone | serveFrozen | blocked | done
+  | freezeDone | serveFrozen | registerChecked | blocked | done
   deriving DecidableEq, Repr
 
 /-- what one step reports besides the position -/
@@ -226,6 +229,7 @@ def vis (s : St) (st : Status) : Vis :=
   | .blockedF => .blocked
   | .blockedW => .blocked
   | .atFrozen => .serveFrozen
+  | .atChecked => .registerChecked
   | .finished => .done
 
 /-- `Freeze()` has returned in this goroutine -/
@@ -262,6 +266,12 @@ def stepActor (kinds : List Kind) (s : St) (i : Nat) (k : Kind) (st : Status) : 
      | .idle => setStatus { s with core := s.core.step .enterWarmup } i .inWarmup
      | _ => setStatus s i .blockedW, .none)
   | .start, .register r =>
+    -- the unlocked test of `serving` / `frozen` at the top of `addRouteInternal` / `addVersionRoute`
+    (match registerRes s.core r with
+     | .accepted => (setStatus s i .atChecked, .none)
+     | res => (setStatus s i .finished, .mut res))
+  | .atChecked, .register r =>
+    -- under `pendingRoutesMu`: test again, then enqueue or register (K12e repaired)
     (setStatus { s with core := s.core.step (.register r) } i .finished, .mut (registerRes s.core r))
   | .start, .whereInt r =>
     (setStatus { s with core := s.core.step (.whereInt r) } i .finished, .mut (mutateRes s.core r))
@@ -337,5 +347,13 @@ def Core.stepAsIs (versioned : RouteId → Bool) (c : Core) : Op → Core
     else if c.warmedUp then registerRoute { c with objs := r :: c.objs } r
     else { c with objs := r :: c.objs, pending := c.pending ++ [r] }
   | op => c.step op
+
+/-- K12e: as shipped the second half of a registration did not look at the flags again: a registration
+    that had passed the test before the freeze was enqueued — or, warm-up being over, written into the live
+    tree — after serving had begun -/
+def enqueueAsIs (c : Core) (r : RouteId) : Core :=
+  if c.objs.contains r then c
+  else if c.warmedUp then registerRoute { c with objs := r :: c.objs } r
+  else { c with objs := r :: c.objs, pending := c.pending ++ [r] }
 
 end Rivaas.Phases
